@@ -45,9 +45,9 @@ sim::Json generate(const std::string& tier, uint64_t seed, uint64_t index) {
     gen::Suffix t; t.name = "sstatus"; t.kind = 1; for (int i = 0; i < (int)m.cons.size(); ++i) t.values.push_back({i, (double)(1 + ((i + 2) % 6))}); m.suffixes.push_back(t);
   }
   // drop SOS suffixes: they change the delivered model in ways unrelated to this property
-  for (size_t k = 0; k < m.suffixes.size();) { if (m.suffixes[k].name == "sosno" || m.suffixes[k].name == "ref") m.suffixes.erase(m.suffixes.begin() + k); else ++k; }
+  for (size_t k = 0; k < m.suffixes.size();) { if (m.suffixes[k].name == "sosno" || m.suffixes[k].name == "ref" || m.suffixes[k].name == "sos" || m.suffixes[k].name == "sosref") m.suffixes.erase(m.suffixes.begin() + k); else ++k; }
 
-  sim::Json sc = model_scenario(m, true);
+  sim::Json sc = model_scenario(m, true, rng.chance(0.3));
   std::vector<std::string> opts;
   int prof = (int)rng.below(4);
   if (prof == 0) { opts.push_back("acc:linrange=0"); opts.push_back("acc:quadrange=0"); }
